@@ -28,7 +28,56 @@ impl UdpBuilder {
     }
 }
 
+/// SO_REUSEADDR / SO_REUSEPORT + bind + listen for TCP.
+pub struct TcpBuilder {
+    reuse_port: std::cell::Cell<bool>,
+    addr: std::cell::Cell<Option<SocketAddr>>,
+}
+
+impl TcpBuilder {
+    pub fn new_v4() -> io::Result<TcpBuilder> {
+        Ok(TcpBuilder { reuse_port: std::cell::Cell::new(false), addr: std::cell::Cell::new(None) })
+    }
+
+    pub fn new_v6() -> io::Result<TcpBuilder> {
+        TcpBuilder::new_v4()
+    }
+
+    pub fn reuse_address(&self, _on: bool) -> io::Result<&TcpBuilder> {
+        Ok(self)
+    }
+
+    pub fn bind<A: std::net::ToSocketAddrs>(&self, addr: A) -> io::Result<&TcpBuilder> {
+        let a = addr.to_socket_addrs()?.next().ok_or_else(|| io::Error::new(io::ErrorKind::InvalidInput, "no address"))?;
+        self.addr.set(Some(a));
+        Ok(self)
+    }
+
+    /// The port becomes occupied at listen time in this model (bind and listen are adjacent in
+    /// every caller the repository has).
+    pub fn listen(&self, _backlog: i32) -> io::Result<mio::net::RawTcpListener> {
+        dsim::yield_point(dsim::Op::Small);
+        let a = self.addr.get().ok_or_else(|| io::Error::new(io::ErrorKind::InvalidInput, "listen before bind"))?;
+        let id = dsim::with(|w| {
+            let p = w.cur_proc();
+            w.tcp_listen_opts(p, a, self.reuse_port.get())
+        })?;
+        Ok(mio::net::RawTcpListener(id))
+    }
+}
+
 pub mod unix {
+    pub trait UnixTcpBuilderExt {
+        fn reuse_port(&self, on: bool) -> std::io::Result<&Self>;
+    }
+
+    impl UnixTcpBuilderExt for super::TcpBuilder {
+        fn reuse_port(&self, on: bool) -> std::io::Result<&Self> {
+            self.reuse_port.set(on);
+            Ok(self)
+        }
+    }
+
     use std::io;
 
     pub trait UnixUdpBuilderExt {
